@@ -148,7 +148,7 @@ func checkC17(c *Ctx) {
 	c.include(checkC19, map[string]string{"C19.3": "C17.6", "C19.6": "C17.6"})
 	c.Rule("C17.7", "the sending wrapper (midi.SendTo) keeps no verdict of its own: the function it returns is called three times in a row on an arbitrary port, whatever the port's Send returned before; every call hands its message to the port exactly once (\"sending on a closed port reports the error\" and \"sent while open reaches the listener\" are the port's decisions at the time of each call)", 1)
 	sendToRule(c, "C17.7", 3)
-	c.Rule("C17.4", "in-memory driver typestate: fields written by the stop closure are re-initialised by Listen on every path; nil-able pointer fields are dereferenced only under a nil test; Send consults the stop flag before feeding the decoder", 3)
+	c.Rule("C17.4", "in-memory driver: three lifecycle histories (Open/Listen/Send/stop/Close in different orders, incl. Send on an open port before any Listen and Listen again after stop) are interpreted from the real constructor and every Send is compared with the lifecycle model — closed: ErrPortClosed; open with an active listener: the decoder built by THAT Listen is fed exactly once; otherwise dropped, no panic; the decoder is fed outside the driver's locks; a dominating nil test of a late-initialised pointer is recorded where present", 3)
 	c.Rule("C17.5", "siblings: every Port implementation's Open (Close) returns nil without effects when already open (closed); every Out.Send reaches the transport only through the open test whose failing edge returns ErrPortClosed", 10)
 
 	lockRules(c, p, "linux")
